@@ -50,10 +50,132 @@ CONTRACTS += [
              raises={}, modifies=['self.name', 'self.value', 'self._is_leaf', 'self.start_pos', 'self.end_pos']),
 ]
 
+def ANYLEAVES():
+    return T.symobjlist('ak.llparser:TElement', name=T.str, value=T.str, _is_leaf=T.const(True),
+                        start_pos=POS(), end_pos=POS())
+
+
+def same_pos(p, q):
+    return p.coords == q.coords and p.src_name == q.src_name
+
+
+CONTRACTS += [
+    # the span rule for a node with ANY number of children: ghost k = an arbitrary child index
+    Contract(M, 'TElement.__init__', name='TElement.__init__/inner/any_length', prop=PROP, spec_globals=G, level='top',
+             params={'self': T.obj('ak.llparser:TElement'), 'name': T.str, 'value': ANYLEAVES(),
+                     'start_pos': T.none, 'end_pos': T.none, 'is_leaf': T.none, 'k': T.int},
+             requires=["len(value) > 0"],
+             ensures={
+                 'starts_at_first_child': "self.start_pos is value[0].start_pos",
+                 'ends_at_last_token': "not (0 <= k < len(value) and not empty(value[k]) "
+                                       "and all(empty(value[j]) for j in range(k + 1, len(value)))) "
+                                       "or same_pos(self.end_pos, value[k].end_pos)",
+                 'nothing_matched': "not all(empty(c) for c in value) or same_pos(self.end_pos, value[-1].end_pos)",
+                 'inner_node': "not self._is_leaf and self.value is value and self.name == name",
+             },
+             invariants={0: {'inv': "all(empty(value[j]) for j in range(len(value) - __i, len(value))) "
+                                    "and self.end_pos is value[-1].end_pos"}},
+             raises={}, modifies=['self.name', 'self.value', 'self._is_leaf', 'self.start_pos', 'self.end_pos']),
+]
+
+# ---- get_orig_text for a text given as a list of lines of ANY length
+from pyvc.speclib import solver_modules as _solver_modules
+_z3, _folds, _parse, _Env = _solver_modules()
+_LINELEN = _folds.PrefixSum('linelen', lambda V, zi: _z3.Length(V.field('value', zi)) + 1)
+_LINECAT = _folds.PrefixConcat('linecat', lambda V, zi: _z3.Concat(V.field('value', zi), _z3.StringVal("\n")), _LINELEN)
+_LINECAT.sep = "\n"          # "\n".join(lines) in the code is this fold without its last separator
+
+
+def linecat(lines, i):
+    """the first i lines, each followed by a line break"""
+    out = ""
+    for x in lines[:i]:
+        out = out + x + "\n"
+    return out
+
+
+def whole_text(lines):
+    return "\n".join(lines)
+
+
+def _whole_text_model(I, args):
+    from pyvc.values import SymList, ListView, SStr, Sq, str_z3
+    (L,) = args
+    if not isinstance(L, SymList):
+        return NotImplemented
+    view = ListView(L)
+    w = str_z3(_LINECAT.whole(I, view))
+    return SStr([Sq(_z3.If(view.n > 0, _z3.SubString(w, 0, _z3.Length(w) - 1), _z3.StringVal("")))])
+
+
+_whole_text_model.fold = _LINECAT
+LINE_MODELS = {'linecat': _folds.prefix_model(_LINECAT), 'whole_text': _whole_text_model}
+
+
+def offset_of(lines, line0, col0):
+    """offset in the whole text of 0-based (line, column)"""
+    return len(linecat(lines, line0)) + col0
+
+
+CONTRACTS += [
+    Contract(M, 'TElement.get_orig_text', name='TElement.get_orig_text/lines/any_length', prop=PROP, spec_globals=G, level='top',
+             params={'self': T.obj('ak.llparser:TElement', name=T.str, value=T.str, _is_leaf=T.const(True),
+                                   start_pos=POS(), end_pos=POS()),
+                     'text': T.symstrlist},
+             requires=["self.start_pos.coords[0] >= 1 and self.start_pos.coords[1] >= 1 and self.end_pos.coords[1] >= 1",
+                       "self.start_pos.coords <= self.end_pos.coords",
+                       "self.end_pos.coords[0] <= len(text)",
+                       "self.start_pos.coords[1] - 1 <= len(text[self.start_pos.coords[0] - 1])",
+                       "self.end_pos.coords[1] - 1 <= len(text[self.end_pos.coords[0] - 1])"],
+             ensures={'delimited_region':
+                      "result == whole_text(text)[offset_of(text, self.start_pos.coords[0] - 1, self.start_pos.coords[1] - 1):"
+                      "offset_of(text, self.end_pos.coords[0] - 1, self.end_pos.coords[1] - 1)]"},
+             invariants={0: {'inv': "start_l + 1 <= __i and len(result_lines) == __i - start_l "
+                                    "and linecat(text, start_l) + text[start_l][:start_c] + linecat(result_lines, len(result_lines)) "
+                                    "== linecat(text, __i)",
+                             'havoc': {'result_lines': T.symstrlist}}},
+             symlist_models=LINE_MODELS, raises={}, modifies=[]),
+]
+
+def _orig_text_sample(rng):
+    """a text of 1..6 lines and a span inside it (for the native sampling of the contract)"""
+    lines = [''.join(rng.choice('ab ;\t') for _ in range(rng.choice([0, 1, 3, 7]))) for _ in range(rng.randint(1, 6))]
+    l1 = rng.randrange(len(lines))
+    l2 = rng.randrange(l1, len(lines))
+    c1 = rng.randint(0, len(lines[l1]))
+    c2 = rng.randint(c1 if l1 == l2 else 0, len(lines[l2]))
+
+    def pos(i, line, col):
+        return {'__class__': 'ak.llparser:SrcPos', '__id__': i, 'fields': {'src_name': 'f', 'coords': {'__tuple__': [line, col]}}}
+    return {'self': {'__class__': 'ak.llparser:TElement', '__id__': 1,
+                     'fields': {'name': 'X', 'value': 'v', '_is_leaf': True, 'start_pos': pos(2, l1 + 1, c1 + 1),
+                                'end_pos': pos(3, l2 + 1, c2 + 1)}},
+            'text': lines}
+
+
+CONTRACTS[-1].sampler = _orig_text_sample
+
 BOUNDED_SYMBOLIC = {'TElement.__init__/inner': 3}
 USES = {}
 ASSUMED_LIBRARY = []
+NATIVE_SAMPLING = {'select': 'any_length', 'n': 150}
 CANARIES = [
+    {'name': 'anylen_orig_text_one_char_too_many', 'module': M, 'function': 'TElement.get_orig_text',
+     'verify': 'TElement.get_orig_text/lines/any_length',
+     'old': 'result_lines.append(lines[end_l][:end_c])', 'new': 'result_lines.append(lines[end_l][:end_c + 1])',
+     'unproved_is_enough': True, 'expect': 'C04.TElement.get_orig_text/lines/any_length.delimited_region'},
+    {'name': 'anylen_orig_text_repeats_first_line', 'module': M, 'function': 'TElement.get_orig_text',
+     'verify': 'TElement.get_orig_text/lines/any_length',
+     'old': 'for i in range(start_l+1, end_l):', 'new': 'for i in range(start_l, end_l):',
+     'unproved_is_enough': True, 'expect': 'C04.TElement.get_orig_text/lines/any_length.loop0.inv_entry'},
+    {'name': 'anylen_inner_span_ends_at_last_child', 'module': M, 'function': 'TElement.__init__',
+     'verify': 'TElement.__init__/inner/any_length',
+     'old': 'if child.start_pos.coords != child.end_pos.coords:', 'new': 'if True:',
+     'unproved_is_enough': True, 'expect': 'C04.TElement.__init__/inner/any_length.ends_at_last_token'},
+    {'name': 'anylen_inner_span_scans_forward', 'module': M, 'function': 'TElement.__init__',
+     'verify': 'TElement.__init__/inner/any_length',
+     'old': 'for child in reversed(self.value):', 'new': 'for child in self.value:',
+     'unproved_is_enough': True, 'expect': 'C04.TElement.__init__/inner/any_length.ends_at_last_token'},
     {'name': 'inner_span_ends_at_last_child', 'module': M, 'function': 'TElement.__init__', 'verify': 'TElement.__init__/inner',
      'old': 'if child.start_pos.coords != child.end_pos.coords:', 'new': 'if True:',
      'expect': 'C04.TElement.__init__/inner.ends_at_last_token'},
